@@ -589,3 +589,50 @@ func H_C11_numrepr() {
 	vassert(funcOpEq(nil, a, b).(bool) == same, "== on numbers of different representations")
 	vreach("end")
 }
+
+// H_C11_reprorder: the order across representations: a ladder of numbers in strictly
+// increasing value, each rung in every representation that can carry it (int, float64,
+// *big.Int, json.Number). Compare is the sign of the rung difference for every ordered
+// pair of representations (big vs float and float vs big in particular), it is
+// antisymmetric, and sort / min / max / the six operators follow it.
+func H_C11_reprorder() {
+	big20, _ := new(big.Int).SetString("100000000000000000000", 10)
+	nbig20, _ := new(big.Int).SetString("-100000000000000000000", 10)
+	big40, _ := new(big.Int).SetString("10000000000000000000000000000000000000000", 10)
+	ladder := [][]any{
+		{-1e30, json.Number("-1e30")},
+		{nbig20, -1e20, json.Number("-100000000000000000000"), json.Number("-1e20")},
+		{-1.5, json.Number("-1.5")},
+		{-1, -1.0, json.Number("-1"), big.NewInt(-1)},
+		{0, 0.0, json.Number("0"), big.NewInt(0), json.Number("-0")},
+		{0.5, json.Number("0.5"), json.Number("5e-1")},
+		{1, 1.0, json.Number("1.0"), big.NewInt(1)},
+		{2.5, json.Number("2.5")},
+		{100, 100.0, big.NewInt(100), json.Number("1e2")},
+		{big20, 1e20, json.Number("100000000000000000000"), json.Number("1.0e20")},
+		{1e30, json.Number("1e30")},
+		{big40, 1e40, json.Number("1e40")},
+		{json.Number("1e1000"), math.Inf(1)},
+	}
+	i, j := nondetChoice(len(ladder)), nondetChoice(len(ladder))
+	a := ladder[i][nondetChoice(len(ladder[i]))]
+	b := ladder[j][nondetChoice(len(ladder[j]))]
+	want := 0
+	if i < j {
+		want = -1
+	} else if i > j {
+		want = 1
+	}
+	vassert(c11Sgn(Compare(a, b)) == want, "Compare orders numbers by value across representations")
+	vassert(c11Sgn(Compare(b, a)) == -want, "Compare is antisymmetric across representations")
+	vassert(funcOpLt(nil, a, b).(bool) == (want < 0) && funcOpGt(nil, a, b).(bool) == (want > 0) && funcOpLe(nil, a, b).(bool) == (want <= 0) && funcOpGe(nil, a, b).(bool) == (want >= 0), "the comparison operators follow the order across representations")
+	s := funcSort([]any{a, b}).([]any)
+	vassert(c11Sgn(Compare(s[0], s[1])) <= 0 && (want <= 0 || hIdentical(s[0], b)), "sort puts the smaller number first whatever its representation")
+	mn, mx := funcMin([]any{a, b}), funcMax([]any{a, b})
+	if want < 0 {
+		vassert(hIdentical(mn, a) && hIdentical(mx, b), "min / max across representations")
+	} else if want > 0 {
+		vassert(hIdentical(mn, b) && hIdentical(mx, a), "min / max across representations")
+	}
+	vreach("end")
+}
